@@ -38,6 +38,7 @@ type Program struct {
 	SpecFuncs map[string]*SpecFunc // pkgpath.name
 	Frames    []*FrameSpec
 	Copies    []*CopySpec
+	Lanes     []*LaneSpec
 	Owned     map[string][]string // pkgpath.Type -> owned receiver fields
 	RepoDir   string
 }
@@ -217,6 +218,24 @@ func (p *Program) parseSpecFuncs(fset *token.FileSet, f *ast.File, pkgPath strin
 			}
 			flush()
 		}
+	}
+	// lanes8 blocks: "lanes8 F" followed by "property ..."
+	{
+		var lines, where []string
+		for _, cg := range f.Comments {
+			for _, c := range cg.List {
+				if !strings.HasPrefix(c.Text, "//@") {
+					continue
+				}
+				text := strings.TrimSpace(strings.TrimPrefix(c.Text, "//@"))
+				pos := fset.Position(c.Pos())
+				lines = append(lines, text)
+				where = append(where, fmt.Sprintf("%s:%d", pos.Filename, pos.Line))
+			}
+			lines = append(lines, "")
+			where = append(where, "")
+		}
+		p.Lanes = append(p.Lanes, parseLaneBlocks(pkgPath, lines, where)...)
 	}
 	for _, cg := range f.Comments {
 		for _, c := range cg.List {
